@@ -125,3 +125,9 @@ def device_wiring(c):
 def contracts(tier):
     yield ("USBDataPacketGenerator", "", generator)
     yield ("USBDevice", "tx_wiring", device_wiring)
+    # device with endpoints: endpoint tx streams -> data packet generator (stream, ready, data PID) -> UTMI transmit multiplexer
+    # -> PHY; the shared CRC unit's users
+    from .w1_usb2_glue import device_wiring as glue
+    yield ("USBDevice", "wiring_utmi", glue("utmi", ("tx", "utmi_tx", "crc")))
+    if tier != "quick":
+        yield ("USBDevice", "wiring_ulpi", glue("ulpi", ("tx", "utmi_tx", "crc")))
